@@ -758,3 +758,44 @@ Print Assumptions C11_cycles_same_text.
 Print Assumptions C11_cycles_iter.
 Print Assumptions C11_second_cycle_content_partial.
 Print Assumptions C11_content_okb_ok.
+
+(* ---- the header sections of the model ARE the blocks of writer.write that emit them today -------------
+   For each of ~Version, ~Well, ~Curve Information and ~Params: the title line, then (for ~Well and ~Params)
+   every value normalised by standardize_value BEFORE the column widths are measured, then one line per item:
+   Writer.title_line followed by Writer.section_lines over the Writer.standardize-d items equals, for every
+   input, the block of statements re-translated on this run from /repo (py_write_*_section in Gen/Funcs.v).
+   Any other statement inside one of the blocks - seed C11_3 moved las.update_units_from_index_curve() between the
+   normalisation loop and get_section_widths - is refused by the translator.  Proofs/FuncsPinWriteHeader.v. *)
+Require Import Funcs FuncsPinStandardize FuncsPinWriter FuncsPinWriteHeader.
+Theorem C11_well_section_current : forall fstr fzero v hw lines items,
+  py_write_well_section (hval_ops fstr fzero) (List.map item_of items) v (Z.of_nat hw) lines
+  = match section_lines fstr v (s2l "Well") (List.map (std_item fzero) items) with
+    | Some ls => Some (List.map item_of (List.map (std_item fzero) items), lines ++ [title_line hw (s2l "~Well ")] ++ ls)
+    | None => None
+    end.
+Proof. exact well_section_pin. Qed.
+Theorem C11_params_section_current : forall fstr fzero v hw lines items,
+  py_write_params_section (hval_ops fstr fzero) (List.map item_of items) v (Z.of_nat hw) lines
+  = match section_lines fstr v (s2l "Parameter") (List.map (std_item fzero) items) with
+    | Some ls => Some (List.map item_of (List.map (std_item fzero) items), lines ++ [title_line hw (s2l "~Params ")] ++ ls)
+    | None => None
+    end.
+Proof. exact params_section_pin. Qed.
+Theorem C11_version_section_current : forall fstr fzero v hw lines items,
+  py_write_version_section (hval_ops fstr fzero) (List.map item_of items) v (Z.of_nat hw) lines
+  = match section_lines fstr v (s2l "Version") items with
+    | Some ls => Some (List.map item_of items, lines ++ [title_line hw (s2l "~Version ")] ++ ls)
+    | None => None
+    end.
+Proof. exact version_section_pin. Qed.
+Theorem C11_curves_section_current : forall fstr fzero v hw lines items,
+  py_write_curves_section (hval_ops fstr fzero) (List.map item_of items) v (Z.of_nat hw) lines
+  = match section_lines fstr v (s2l "Curves") items with
+    | Some ls => Some (List.map item_of items, lines ++ [title_line hw (s2l "~Curve Information ")] ++ ls)
+    | None => None
+    end.
+Proof. exact curves_section_pin. Qed.
+Print Assumptions C11_well_section_current.
+Print Assumptions C11_params_section_current.
+Print Assumptions C11_version_section_current.
+Print Assumptions C11_curves_section_current.
